@@ -110,6 +110,18 @@ func runSelftests(prop, repo, verif string) map[string]any {
 				}
 				// "§n/m§pattern": the pattern occurs m times (sibling functions with identical text), edit the n-th
 				oldPat, nth, of := ed.Old, 1, 1
+				// "§all§identifier": every occurrence of the identifier (as a whole word) is replaced — a rename
+				if strings.HasPrefix(oldPat, "§all§") {
+					id := strings.TrimPrefix(oldPat, "§all§")
+					re := regexp.MustCompile(`\b` + regexp.QuoteMeta(id) + `\b`)
+					if !re.Match(src) {
+						res.outcome, res.note = "skipped", "identifier does not occur in the current source (source changed)"
+						skipped = true
+						break
+					}
+					content[ed.File] = re.ReplaceAll(src, []byte(ed.New))
+					continue
+				}
 				if strings.HasPrefix(oldPat, "§") {
 					if _, err := fmt.Sscanf(oldPat, "§%d/%d§", &nth, &of); err == nil {
 						oldPat = oldPat[strings.Index(oldPat[2:], "§")+2+len("§"):]
